@@ -97,6 +97,15 @@ func genOps(t *rapid.T, label string, lo, hi int, s *sut.Server) []op {
 		}
 		ops = append(ops, op{Actor: actor, Cmd: sanitize(genCmd(t, m))})
 	}
+	if label == "ops" && rapid.IntRange(0, 3).Draw(t, "scenario") == 0 {
+		// a key that is volatile when the log is rewritten and whose deadline is removed or moved afterwards (the
+		// change lives in the log only): a restart after the original deadline must still serve it
+		k := gen.Key(t, keys, "sk")
+		ops = append(ops, op{Actor: "emb", Cmd: rapid.SampledFrom([][]string{{"SET", k, "vol", "PX", "1500"}, {"SET", k, "vol", "EX", "100"}, {"RPUSH", k, "e1", "e2"}, {"SADD", k, "m1"}}).Draw(t, "sset")})
+		ops = append(ops, op{Actor: "emb", Cmd: []string{"PEXPIRE", k, rapid.SampledFrom([]string{"1500", "90000"}).Draw(t, "spx")}})
+		ops = append(ops, op{Actor: "emb", Cmd: []string{"REWRITEAOF"}})
+		ops = append(ops, op{Actor: "emb", Cmd: rapid.SampledFrom([][]string{{"PERSIST", k}, {"PEXPIRE", k, "900000000"}, {"GETEX", k, "PERSIST"}, {"EXPIRE", k, "9000000"}}).Draw(t, "skeep")})
+	}
 	return ops
 }
 
@@ -191,7 +200,7 @@ func runCase(t *rapid.T, replay *workload) {
 	if replay == nil {
 		w.Ops = genOps(t, "ops", 3, 14, s)
 		w.Gen2 = genOps(t, "gen2", 1, 5, s)
-		w.AdvanceBetween = rapid.SampledFrom([]int64{0, 0, 2000, 200000}).Draw(t, "advance_between")
+		w.AdvanceBetween = rapid.SampledFrom([]int64{0, 2000, 200000, 200000}).Draw(t, "advance_between")
 	}
 	c := &caseRun{w: w, root: root}
 	fail := func(format string, a ...any) {
